@@ -820,6 +820,11 @@ impl Generator {
             if let Some(s) = gen_surgery(rng, info) {
                 t.surgery.push(s);
             }
+            if rng.pct(35) && info.container == Container::Sfnt {
+                if let Some(s) = gen_rvrn(rng, info) {
+                    t.surgery.push(s);
+                }
+            }
         } else if rng.pct(4) && !info.gpos_features.is_empty() {
             if let Some(s) = gen_surgery_gpos(rng, info) {
                 t.surgery.push(s);
@@ -838,6 +843,11 @@ impl Generator {
         if rng.pct(25) && !info.gsub_features.is_empty() && info.container == Container::Sfnt {
             if let Some(s) = gen_surgery(rng, info) {
                 t.surgery.push(s);
+            }
+            if rng.pct(20) {
+                if let Some(s) = gen_rvrn(rng, info) {
+                    t.surgery.push(s);
+                }
             }
         } else if rng.pct(6) && !info.gpos_features.is_empty() && info.container == Container::Sfnt {
             if let Some(s) = gen_surgery_gpos(rng, info) {
@@ -1474,6 +1484,23 @@ fn gen_file_fault(rng: &mut Rng, info: &FontInfo, rewrap: bool) -> Option<Fault>
             dst: off_in(rng) & !3,
             len: 4 * (1 + rng.usize_below(16)),
         },
+    })
+}
+
+/// One of the font's GSUB features that has lookups becomes `rvrn`.
+fn gen_rvrn(rng: &mut Rng, info: &FontInfo) -> Option<Surgery> {
+    let with_lookups: Vec<usize> = info
+        .gsub_features
+        .iter()
+        .enumerate()
+        .filter(|(_, f)| !f.1.is_empty())
+        .map(|(i, _)| i)
+        .collect();
+    if with_lookups.is_empty() {
+        return None;
+    }
+    Some(Surgery::RvrnFeature {
+        feature_index: *rng.pick(&with_lookups) as u16,
     })
 }
 
